@@ -357,6 +357,11 @@ func (w *World) runFault() {
 		return
 	}
 	preSize, preHeight := tr.m.Size(), tr.m.Height()
+	if op.K == "cur" && fp2 == nil {
+		w.cursorUnderFault(op, tr, fp)
+		w.finish()
+		return
+	}
 	w.armFault(fp)
 	if fp2 != nil {
 		w.armSecond(*fp2)
@@ -439,6 +444,114 @@ func (w *World) runFault() {
 		w.fail("retry-after-fault-fails/"+sigTail, "retrying %s after %s#%d cleared did not give the normal result: %s", op.K, fp.kind, fp.idx, tr)
 	}
 	w.finish()
+}
+
+// cursorUnderFault: a navigation call that returns an error because of the injected fault is
+// retried on the SAME cursor with the fault cleared; it must then succeed with the normal result,
+// i.e. the walk continues to visit exactly the sorted entries.
+func (w *World) cursorUnderFault(op *Op, t *Tree, fp faultPoint) {
+	all := w.modelObs(t.model)
+	n := len(all)
+	w.armFault(fp)
+	defer w.disarm()
+	var c *mast.Cursor
+	r := guard(func() error {
+		var err error
+		c, err = t.m.Cursor(ctx)
+		return err
+	})
+	if r.bad() {
+		return // the fault hit Cursor() itself: covered by the generic path (tree unchanged + fresh retry)
+	}
+	pos := 0
+	place := func() error {
+		switch op.F {
+		case "max":
+			pos = n - 1
+			if n == 0 {
+				pos = 0
+			}
+			return c.Max(ctx)
+		case "ceil":
+			if !w.keyOK(op.Key) {
+				return nil
+			}
+			pos = t.model.Ceil(op.Key)
+			return c.Ceil(ctx, w.kd.Key(op.Key))
+		}
+		pos = 0
+		return c.Min(ctx)
+	}
+	r = guard(place)
+	if r.bad() {
+		return // placement under fault: position after an error is not specified; covered generically
+	}
+	fired := func() int {
+		f := 0
+		for _, d := range w.disks {
+			f += d.Fired["load-fail"] + d.Fired["load-notfound"]
+		}
+		for _, v := range w.seams.fired {
+			f += v
+		}
+		return f
+	}
+	for _, mv := range op.S {
+		if pos < 0 || pos >= n {
+			return
+		}
+		step := func() error {
+			if mv >= 0 {
+				return c.Forward(ctx)
+			}
+			return c.Backward(ctx)
+		}
+		what := "forward"
+		if mv < 0 {
+			what = "backward"
+		}
+		before := fired()
+		r := guard(step)
+		if r.panicked != nil {
+			w.st.Probes["panic-under-fault"]++
+			return
+		}
+		if r.err != nil {
+			if fired() == before {
+				return // an error that is not ours
+			}
+			w.st.OracleEvals++
+			w.st.Probes["navigation-call-failed-under-fault"]++
+			w.disarm()
+			// the cursor must still stand where it stood, and the same call must now succeed
+			r2 := guard(step)
+			if r2.bad() {
+				w.fail("retry-after-fault-fails/cur-"+what+"/"+fp.kind, "%s returned %v under %s#%d; retried on the same cursor with the fault cleared it fails again: %s", what, r.err, fp.kind, fp.idx, r2)
+				return
+			}
+		}
+		if mv >= 0 {
+			pos++
+		} else {
+			pos--
+		}
+		k, v, ok := c.Get()
+		wantOK := pos >= 0 && pos < n
+		if ok != wantOK || (ok && w.obsEntry(k, v) != all[pos]) {
+			if r.err != nil {
+				got := "<no entry>"
+				if ok {
+					got = w.obsEntry(k, v)
+				}
+				want := "<no entry>"
+				if wantOK {
+					want = all[pos]
+				}
+				w.fail("retry-after-fault-wrong-position/cur-"+what+"/"+fp.kind, "%s failed under %s#%d and was retried on the same cursor: it now stands on %s, the sorted list says %s", what, fp.kind, fp.idx, got, want)
+			}
+			return
+		}
+	}
 }
 
 func errSite(err error) string {
